@@ -303,6 +303,12 @@ fn c05(rng: &mut Rng, out: &mut Out) {
         let x: Vec<Q> = (0..n).map(|_| rng.q()).collect();
         match quiet(|| &t * &Vector::create(x.clone())) { Ok(p) => if vq(&p) != matvec(&d, &x) { report(out, "C05 product == dense product", format!("{} x={}", desc, qs(&x)), qs(&vq(&p)), qs(&matvec(&d, &x))); },
             Err(e) => report(out, "C05 product panicked", format!("{} x={}", desc, qs(&x)), e, qs(&matvec(&d, &x))) }
+        match quiet(|| t.clone() * Vector::create(x.clone())) { Ok(p) => if vq(&p) != matvec(&d, &x) { report(out, "C05 consuming product == dense product", format!("{} x={}", desc, qs(&x)), qs(&vq(&p)), qs(&matvec(&d, &x))); },
+            Err(e) => report(out, "C05 consuming product panicked", format!("{} x={}", desc, qs(&x)), e, qs(&matvec(&d, &x))) }
+        { let t2 = Tridiagonal::with_vecs(sup.clone(), main.clone(), sub.clone());       // the transpose as a second operand
+          if let (Ok(sm), Ok(df)) = (quiet(|| t.clone() + t2.clone()), quiet(|| t.clone() - t2.clone())) {
+              for i in 0..n { for j in 0..n { if (i as i64 - j as i64).abs() <= 1 {
+                  if sm[(i, j)] != d[i][j] + d[j][i] || df[(i, j)] != d[i][j] - d[j][i] { report(out, "C05 sum / difference of tridiagonal matrices is entrywise", desc.clone(), format!("({},{})", i, j), "entrywise".into()); } } } } } }
         match quiet(|| t.det()) { Ok(dd) => if dd != det_ref(&d) && n <= 6 { report(out, "C05 det == dense det", desc.clone(), format!("{:?}", dd), format!("{:?}", det_ref(&d))); }, Err(e) => report(out, "C05 det panicked", desc.clone(), e, "det".into()) }
         let tt = t.transpose(); for i in 0..n { for j in 0..n { if (i as i64 - j as i64).abs() <= 1 && tt[(i, j)] != d[j][i] { report(out, "C05 transpose", desc.clone(), format!("({},{})={:?}", i, j, tt[(i, j)]), format!("{:?}", d[j][i])); } } }
         // solve: exact, or refuses with a zero-pivot panic; never a wrong / non-finite answer
@@ -367,6 +373,29 @@ fn c06(rng: &mut Rng, out: &mut Out) {
         }
     }
 }
+fn c07_insert(rng: &mut Rng, out: &mut Out) {
+    // the same identities on matrices built by a history of inserts (new entries and overwrites), then scaled
+    for _ in 0..150 { case();
+        let (r, c) = (1 + rng.below(5) as usize, 1 + rng.below(5) as usize);
+        let mut t = rand_pattern(rng, r, c);
+        let mut d = dense_of(&t, r, c);
+        let mut s = match quiet(|| Sparse::<Q>::from_triplets(r, c, &mut t)) { Ok(s) => s, Err(_) => continue };
+        let mut hist = vec![format!("{}x{} start {}", r, c, mq(&d))];
+        for _ in 0..4 { case();
+            let (i, j, v) = (rng.below(r as u64) as usize, rng.below(c as u64) as usize, Q::int(rng.int(-4, 4)));
+            if v.is_zero() { continue; }
+            if quiet(std::panic::AssertUnwindSafe(|| s.insert(i, j, v))).is_err() { report(out, "C07 insert panicked on an in-range position", hist.join("; "), format!("insert({},{},{:?})", i, j, v), "stored".into()); break; }
+            d[i][j] = v; hist.push(format!("insert({},{},{:?})", i, j, v));
+        }
+        let k = Q::int(rng.int(-3, 3)); if !k.is_zero() { s.scale(&k); for row in d.iter_mut() { for e in row.iter_mut() { *e = *e * k; } } hist.push(format!("scale({:?})", k)); }
+        let ctx = hist.join("; ");
+        let x: Vec<Q> = (0..c).map(|_| rng.q()).collect(); let y: Vec<Q> = (0..r).map(|_| rng.q()).collect();
+        let dt: M = (0..c).map(|j| (0..r).map(|i| d[i][j]).collect()).collect();
+        match quiet(|| s.multiply(&Vector::create(x.clone()))) { Ok(p) => if vq(&p) != matvec(&d, &x) { report(out, "C07 after inserts and scale: A*x == dense A*x", format!("{} x={}", ctx, qs(&x)), qs(&vq(&p)), qs(&matvec(&d, &x))); }, Err(e) => report(out, "C07 multiply panicked after inserts", ctx.clone(), e, "a product".into()) }
+        match quiet(|| s.transpose_multiply(&Vector::create(y.clone()))) { Ok(p) => if vq(&p) != matvec(&dt, &y) { report(out, "C07 after inserts and scale: A^T*y == dense A^T*y", format!("{} y={}", ctx, qs(&y)), qs(&vq(&p)), qs(&matvec(&dt, &y))); }, Err(e) => report(out, "C07 transpose_multiply panicked after inserts", ctx.clone(), e, "a product".into()) }
+        match quiet(|| s.transpose().multiply(&Vector::create(y.clone()))) { Ok(p) => if vq(&p) != matvec(&dt, &y) { report(out, "C07 after inserts and scale: transpose().multiply(y) == A^T*y", format!("{} y={}", ctx, qs(&y)), qs(&vq(&p)), qs(&matvec(&dt, &y))); }, Err(e) => report(out, "C07 transpose panicked after inserts", ctx.clone(), e, "a product".into()) }
+    }
+}
 fn c07(rng: &mut Rng, out: &mut Out) {
     for _ in 0..300 { case();
         let (r, c) = (1 + rng.below(6) as usize, 1 + rng.below(6) as usize);
@@ -426,6 +455,7 @@ fn c08(rng: &mut Rng, out: &mut Out) {
         if kind == 3 && n > 1 { for j in 0..n { d[n - 1][j] = 0.0; } }                                              // singular
         let b: Vec<f64> = (0..n).map(|_| if it % 9 == 0 { 0.0 } else { rng.f() }).collect();
         let x0: Vec<f64> = (0..n).map(|_| match it % 3 { 0 => 0.0, 1 => rng.f(), _ => 500.0 * rng.f() }).collect();
+        if it % 5 == 2 { for row in d.iter_mut() { for v in row.iter_mut() { *v *= 1.0e-3; } } }             // small-norm matrix
         let s = sparse_f(&d); let bv = Vector::create(b.clone()); let xv = Vector::create(x0.clone());
         let tol = [1e-10, 1e-6, 1e-3][it % 3]; let maxit = [0usize, 1, 3, 60][it % 4];
         let ctx = format!("A={:?} b={:?} x0={:?} tol={} max_iter={}", d, b, x0, tol, maxit);
@@ -437,7 +467,7 @@ fn c08(rng: &mut Rng, out: &mut Out) {
                 let fin = (0..n).all(|i| x[i].is_finite());
                 let rr = resid(&d, &x, &b);
                 let cond_guard = kind <= 1;   // drift bound only claimed for well-conditioned systems
-                if !fin || (cond_guard && !(rr <= tol * 1.0e3 + 1e-13)) {
+                if !fin || (cond_guard && !(rr <= tol * 4.0 + 1e-12)) {
                     report(out, "C08 Ok means x finite and the true relative residual within the tolerance (up to drift)", format!("{} solver={}", ctx, name), format!("Ok({}) x={:?} true residual={:e}", k, x, rr), format!("finite x, residual <= {:e}", tol));
                 }
             }
@@ -521,6 +551,9 @@ fn c10(rng: &mut Rng, out: &mut Out) {
         let ai = Cmplx::new(0.0, 1.0) * a;
         cases.push(vec![ai * (Cmplx::new(0.0, 0.0) - r * r * t), ai * (r * r + r * t * 2.0), ai * (Cmplx::new(0.0, 0.0) - (r * 2.0 + t)), ai]);
     }
+    { let mul = |p: &Vec<Cmplx>, r: f64| -> Vec<Cmplx> { let mut q = vec![Cmplx::new(0.0, 0.0); p.len() + 1]; for (k, c) in p.iter().enumerate() { q[k + 1] = q[k + 1] + *c; q[k] = q[k] - *c * r; } q };
+      for roots in [vec![1.0, 1.0, -2.0, -2.0, 3.0, 3.0, -0.5, -0.5], vec![1.0, 1.0, 1.0, -2.0, -2.0, -2.0, 0.5, 0.5, 0.5], vec![1.0, 1.0, -1.0, -1.0, 2.0, 2.0, -2.0, -2.0, 0.5, 0.5, -0.5, -0.5]] {
+          let mut p = vec![Cmplx::new(1.0, 0.0)]; for r in &roots { p = mul(&p, *r); } cases.push(p); } }
     for c in cases { for refine in [false, true] { case();
         let deg = c.len() - 1;
         let ctx = format!("coeffs={:?} refine={}", c.iter().map(|z| (z.real, z.imag)).collect::<Vec<_>>(), refine);
@@ -662,6 +695,13 @@ fn c14(_rng: &mut Rng, out: &mut Out) {
             if !cl(z.powf(x), e) { report(out, "C14 z^x == exp(x ln z)", format!("{} x={}", ctx, x), format!("({}, {})", z.powf(x).real, z.powf(x).imag), format!("({}, {})", e.real, e.imag)); }
             if !cl(z.pow(&Cmplx::new(x, 0.5)), (z.ln() * Cmplx::new(x, 0.5)).exp()) { report(out, "C14 z^w == exp(w ln z)", format!("{} w=({}, 0.5)", ctx, x), "differs".into(), "exp(w ln z)".into()); }
         }
+        // log to several bases in a row (pure function of its two arguments: no call may depend on an earlier one)
+        for &(br, bi) in &[(2.0, 0.0), (0.0, 2.0), (2.0, 1.0), (1.0, 2.0), (3.0, 3.0), (0.5, 0.5), (2.0, 0.0)] { case();
+            let b = Cmplx::new(br, bi);
+            let e = z.ln() / b.ln();
+            let g = z.log(b);
+            if !cl(g, e) { report(out, "C14 log_b(z) == ln z / ln b for every base, whatever was computed before", format!("{} base=({}, {})", ctx, br, bi), format!("({}, {})", g.real, g.imag), format!("({}, {})", e.real, e.imag)); }
+        }
         if z.imag == 0.0 { chk(out, "C14 sin reduces to the real sine on the real axis", z.sin(), Cmplx::new(z.real.sin(), 0.0)); chk(out, "C14 exp reduces to the real exp", z.exp(), Cmplx::new(z.real.exp(), 0.0)); }
     }
 }
@@ -705,19 +745,23 @@ fn c15(rng: &mut Rng, out: &mut Out) {
         let got = Vector::create(iv.clone()).find(key); if got != exp { report(out, "C15 find returns the first match, else the last index", format!("v={:?} value={}", iv, key), format!("{}", got), format!("{}", exp)); }
         // edits against a list model
         let mut m = iv.clone(); let mut v = Vector::create(iv.clone()); let mut h = vec![];
-        for _ in 0..5 { case(); match rng.below(6) {
+        for _ in 0..8 { case(); match rng.below(9) {
             0 => { let x = rng.int(0, 9); m.push(x); v.push(x); h.push(format!("push({})", x)); }
             1 => { let x = rng.int(0, 9); m.insert(0, x); v.push_front(x); h.push(format!("push_front({})", x)); }
             2 => { let p = rng.below(m.len() as u64 + 1) as usize; let x = rng.int(0, 9); m.insert(p, x); v.insert(p, x); h.push(format!("insert({},{})", p, x)); }
             3 => if m.len() > 1 { let e = m.pop().unwrap(); let g = v.pop(); if g != e { report(out, "C15 pop returns the last element", format!("{:?}", h), format!("{}", g), format!("{}", e)); } h.push("pop".into()); },
             4 => if !m.is_empty() { let (i, j) = (rng.below(m.len() as u64) as usize, rng.below(m.len() as u64) as usize); m.swap(i, j); v.swap(i, j); h.push(format!("swap({},{})", i, j)); },
-            _ => { m.sort(); v.sort(); h.push("sort".into()); } }
+            5 => { m.sort(); v.sort(); h.push("sort".into()); }
+            6 => { let k = rng.below(m.len() as u64 + 4) as usize; m.resize(k, 0); v.resize(k); h.push(format!("resize({})", k)); }
+            7 => { let x = rng.int(0, 9); for e in m.iter_mut() { *e = x; } v.assign(x); h.push(format!("assign({})", x)); }
+            _ => if rng.below(3) == 0 { m.clear(); v.clear(); h.push("clear".into()); } }
             if v.size() != m.len() || (0..m.len()).any(|i| v[i] != m[i]) { report(out, "C15 vector equals the list model after a sequence of edits", format!("start {:?}; {}", iv, h.join("; ")), format!("{:?}", v), format!("{:?}", m)); break; } }
     }
     let l = Vector::<f64>::linspace(1.0, 3.0, 5); if l[0] != 1.0 || (l[4] - 3.0).abs() > 1e-12 || (0..4).any(|i| l[i] >= l[i + 1]) { report(out, "C15 linspace starts at a, ends at b, monotone", "linspace(1,3,5)".into(), format!("{:?}", l), "[1, 1.5, 2, 2.5, 3]".into()); }
 }
 fn c16(_rng: &mut Rng, out: &mut Out) {
-    for n in (0..=200usize).chain([1000, 4099]) { case();
+    // increasing lengths, then short and empty vectors again AFTER long ones (per-thread scratch must not leak between calls)
+    for n in (0..=200usize).chain([1000, 4099, 0, 1, 2, 3, 5, 7, 15, 16, 17, 0, 31, 4099, 0]) { case();
         let a: Vec<f64> = (0..n).map(|i| ((i * 7 + 3) % 11) as f64 - 5.0).collect(); let b: Vec<f64> = (0..n).map(|i| ((i * 5 + 1) % 13) as f64 - 6.0).collect();
         let (va, vb) = (Vector::create(a), Vector::create(b));
         match quiet(|| (va.dot_f64(&vb), va.dot_f64(&vb))) {
@@ -767,7 +811,8 @@ fn c18(rng: &mut Rng, out: &mut Out) {
     use std::cell::RefCell;
     for m in 1..5usize { for n in 1..5usize { for _ in 0..4 { case();
         let a: Vec<Vec<f64>> = (0..m).map(|_| (0..n).map(|_| if rng.below(4) == 0 { 0.0 } else { rng.f() }).collect()).collect();
-        let c: Vec<f64> = (0..m).map(|_| rng.f()).collect(); let p: Vec<f64> = (0..n).map(|_| rng.f()).collect();
+        let c: Vec<f64> = (0..m).map(|_| rng.f()).collect(); let mut p: Vec<f64> = (0..n).map(|_| rng.f()).collect();
+        for t in 0..n { match rng.below(6) { 0 => p[t] = -0.0625, 1 => p[t] = -0.03125, 2 => p[t] = 0.0, _ => {} } }     // within one step of zero, and the exact tie
         let calls: RefCell<Vec<Vec<f64>>> = RefCell::new(vec![]);
         let f = |x: Vec64| { calls.borrow_mut().push((0..n).map(|i| x[i]).collect()); Vec64::create((0..m).map(|i| c[i] + (0..n).map(|j| a[i][j] * x[j]).sum::<f64>()).collect()) };
         let delta = 0.0625;
@@ -792,6 +837,34 @@ fn c18(rng: &mut Rng, out: &mut Out) {
 }
 
 // ---------------------------------------------------------------- C19 meshes
+fn c19_file(rng: &mut Rng, out: &mut Out) {
+    // writing a 1-D mesh to a file and reading it back reproduces nodes and variables (dyadic data, printed exactly),
+    // whether the target mesh is new or already holds an (other) grid
+    let dir = std::env::temp_dir();
+    for it in 0..12 { case();
+        let (n, nv) = (2 + rng.below(6) as usize, 1 + rng.below(3) as usize);
+        let xs: Vec<f64> = (0..n).scan(-1.0, |s, _| { *s += 0.25 * (1 + rng.below(4)) as f64; Some(*s) }).collect();
+        let mut m = Mesh1D::<f64, f64>::new(Vector::create(xs.clone()), nv);
+        let mut model = vec![vec![0.0f64; nv]; n];
+        for i in 0..n { let v: Vec<f64> = (0..nv).map(|_| rng.int(-9, 9) as f64 * 0.5).collect(); model[i] = v.clone(); m.set_nodes_vars(i, Vector::create(v)); }
+        let path = dir.join(format!("ohsl_replay_c19_{}_{}.dat", std::process::id(), it));
+        let ps = path.to_string_lossy().to_string();
+        let ctx = format!("nodes={:?} vars={:?}", xs, model);
+        if quiet(|| m.output(&ps, 8)).is_err() { report(out, "C19 output panicked", ctx.clone(), "panic".into(), "a file".into()); continue; }
+        let targets: Vec<(&str, Mesh1D<f64, f64>)> = vec![
+            ("a new mesh", Mesh1D::<f64, f64>::new(Vector::create(vec![0.0, 1.0]), nv)),
+            ("a mesh holding the same grid and data", { let mut c = Mesh1D::<f64, f64>::new(Vector::create(xs.clone()), nv); for i in 0..n { c.set_nodes_vars(i, Vector::create(model[i].clone())); } c }),
+            ("a mesh on a longer grid", Mesh1D::<f64, f64>::new(Vector::create((0..n + 3).map(|i| i as f64).collect()), nv))];
+        for (what, mut t) in targets { case();
+            match quiet(std::panic::AssertUnwindSafe(|| { t.read(&ps); })) {
+                Ok(()) => { let ok = t.nnodes() == n && (0..n).all(|i| t.coord(i) == xs[i] && (0..nv).all(|k| t.get_nodes_vars(i)[k] == model[i][k]));
+                    if !ok { report(out, "C19 reading a written 1-D mesh back reproduces nodes and variables", format!("{} read into {}", ctx, what), format!("{} nodes, first coord {}", t.nnodes(), if t.nnodes() > 0 { t.coord(0) } else { f64::NAN }), format!("{} nodes", n)); } }
+                Err(e) => report(out, "C19 read panicked on a file written by output", format!("{} read into {}", ctx, what), e, "the mesh".into()),
+            }
+        }
+        let _ = std::fs::remove_file(&path);
+    }
+}
 fn c19(rng: &mut Rng, out: &mut Out) {
     for _ in 0..60 { case();
         let (nx, ny, nv) = (2 + rng.below(4) as usize, 2 + rng.below(4) as usize, 1 + rng.below(3) as usize);
@@ -869,6 +942,14 @@ fn c20(rng: &mut Rng, out: &mut Out) {
         must_panic(out, format!("Banded{:?} += Banded{:?}", p, q), quiet(|| { let mut t = x.clone(); t += &y; }));
         must_panic(out, format!("Banded{:?} -= Banded{:?}", p, q), quiet(|| { let mut t = x.clone(); t -= &y; }));
     }
+    // a resize that keeps n and m1 + m2 but changes the split must change what is accepted
+    for (p, q) in [((4usize, 1usize, 1usize), (4usize, 2usize, 0usize)), ((5, 2, 1), (5, 1, 2)), ((4, 0, 2), (4, 2, 0))] { case();
+        let mut x = Banded::<Q>::new(p.0, p.1, p.2, Q::int(1)); x.resize(q.0, q.1, q.2);
+        if x.size_below() != q.1 || x.size_above() != q.2 { report(out, "C20 Banded::resize updates the band counts the shape checks use", format!("new{:?} then resize{:?}", p, q), format!("({}, {})", x.size_below(), x.size_above()), format!("({}, {})", q.1, q.2)); }
+        let same = Banded::<Q>::new(q.0, q.1, q.2, Q::int(2)); let old = Banded::<Q>::new(p.0, p.1, p.2, Q::int(2));
+        must_panic(out, format!("Banded new{:?}.resize{:?} + Banded{:?}", p, q, p), quiet(|| { let _ = &x + &old; }));
+        if quiet(|| { let _ = &x + &same; }).is_err() { report(out, "C20 conformable operands are accepted", format!("Banded new{:?}.resize{:?} + Banded{:?}", p, q, q), "panic".into(), "a sum".into()); }
+    }
     // consuming forms return what the borrowed forms return; operands taken by reference are unchanged
     for _ in 0..200 { case();
         let (la, lb) = (rng.below(4) as usize, rng.below(4) as usize); let (a, b) = (pq(rng, la), pq(rng, lb));
@@ -892,10 +973,10 @@ fn main() {
     let mut out: Out = vec![];
     match pid.as_str() {
         "C01" => c01(&mut rng, &mut out), "C02" => c02(&mut rng, &mut out), "C03" => c03(&mut rng, &mut out), "C04" => { c04(&mut rng, &mut out); c04_f64(&mut rng, &mut out) },
-        "C05" => c05(&mut rng, &mut out), "C06" => c06(&mut rng, &mut out), "C07" => c07(&mut rng, &mut out), "C08" => c08(&mut rng, &mut out),
+        "C05" => c05(&mut rng, &mut out), "C06" => c06(&mut rng, &mut out), "C07" => { c07(&mut rng, &mut out); c07_insert(&mut rng, &mut out) }, "C08" => c08(&mut rng, &mut out),
         "C09" => c09(&mut rng, &mut out), "C10" => c10(&mut rng, &mut out), "C11" => c11(&mut rng, &mut out), "C12" => c12(&mut rng, &mut out),
         "C13" => c13(&mut rng, &mut out), "C14" => c14(&mut rng, &mut out), "C15" => c15(&mut rng, &mut out), "C16" => c16(&mut rng, &mut out),
-        "C17" => c17(&mut rng, &mut out), "C18" => c18(&mut rng, &mut out), "C19" => c19(&mut rng, &mut out), "C20" => c20(&mut rng, &mut out),
+        "C17" => c17(&mut rng, &mut out), "C18" => c18(&mut rng, &mut out), "C19" => { c19(&mut rng, &mut out); c19_file(&mut rng, &mut out) }, "C20" => c20(&mut rng, &mut out),
         _ => { eprintln!("unknown property {}", pid); std::process::exit(2); }
     }
     let esc = |s: &str| s.replace('\\', "\\\\").replace('"', "\\\"").replace('\n', " ");
